@@ -93,10 +93,103 @@ def run(chk, repo):
     chk.rule("C04.names", "every m_k / d_k read is defined by the prologue or the loop")
 
     schemas = K.quick_schemas()
+    from .. import peval as _pe
+    _pe.COMPARED.clear()
     Wk, agg, n = kernel_obligations(chk, repo, schemas)
+    # the literals the builder compares a coefficient with partition the coefficient values: besides 0, 1, -1 and
+    # "anything else" every further literal is a class of its own and gets its own kernels
+    extra_lits = sorted(v for v in _pe.COMPARED if v not in (0, 1, -1))
+    chk.facts["coefficient_literals_compared"] = sorted(_pe.COMPARED, key=float)
+    if extra_lits:
+        extra = []
+        for c in extra_lits[:6]:
+            cc = ("const", c)
+            extra += [({0: cc}, {0: "one"}), ({0: "generic", 1: cc}, {0: "one", 1: "generic"}), ({0: "generic"}, {0: "one", 1: cc}),
+                      ({0: "generic", 1: "generic"}, {0: cc, 1: "generic"}), ({0: cc, 2: cc}, {0: cc, 2: cc})]
+        _, agg2, n2 = kernel_obligations(chk, repo, extra)
+        for k_, v_ in agg2.items():
+            a_ = agg.setdefault(k_, [0, None, 0])
+            a_[0] += v_[0]
+            a_[2] += v_[2]
+            if a_[1] is None:
+                a_[1] = v_[1]
+        n += n2
     emit(chk, Wk, agg, exclude=("C06", "E3"))
     chk.facts["kernel_schemas"] = n
     chk.floor("C04.kernel", n, 700, "schemas folded and analysed")
+
+    # ------------------------------------------------------- constructor
+    chk.rule("C04.normalise", "LinearFilter.__init__ (decision table): a filter argument is cast (divided by the "
+                              "denominator when one is given), anything else becomes Poly(numerator) / Poly(denominator "
+                              "or 1); then numerator and denominator are both multiplied by x ** -p, p the lowest "
+                              "denominator power, exactly when p != 0 - so the denominator starts at delay 0")
+    from ..dtable import Facts, walk
+    ini = repo.find(LF, "LinearFilter.__init__")
+    ib = docstring_free(ini.body)
+    ipar = [a.arg for a in ini.args.args]
+    chk.require(len(ipar) == 3, "LinearFilter.__init__ signature changed")
+    n_, d_ = ipar[1], ipar[2]
+    try:
+        for nk in ("LinearFilter", "coefficients"):
+            for dgiven in (False, True):
+                for pw in (0, 2, -1):
+                    F = Facts(kinds=dict([(n_, {"LinearFilter"} if nk == "LinearFilter" else {"list"})] +
+                                         ([(d_, {"list"})] if dgiven else [])),
+                              none=[] if dgiven else [d_], types={"LinearFilter"})
+
+                    def rb(name, value, F_, pw=pw):
+                        F_.forget(name)
+                        if name == n_ and nk == "LinearFilter":
+                            F_.kinds[n_] = {"LinearFilter"}
+                        if name == "power" or (isinstance(value, ast.Call) and unparse(value.func) == "min"
+                                               and "denpoly" in unparse(value)):
+                            F_.values[name] = pw
+                    w = walk(ib, F, "LinearFilter.__init__", rebind=rb)
+                    t = w.texts()
+                    if nk == "LinearFilter":
+                        cast = "%s = operator.truediv(%s, %s)" % (n_, n_, d_) in t or "%s = %s / %s" % (n_, n_, d_) in t
+                        ok = cast == dgiven and "self.numpoly = %s.numpoly" % n_ in t and "self.denpoly = %s.denpoly" % n_ in t
+                        if ok and cast:
+                            ok = t.index("%s = operator.truediv(%s, %s)" % (n_, n_, d_) if "%s = operator.truediv(%s, %s)" % (n_, n_, d_) in t
+                                         else "%s = %s / %s" % (n_, n_, d_)) < t.index("self.numpoly = %s.numpoly" % n_)
+                    else:
+                        ok = "self.numpoly = Poly(%s)" % n_ in t and \
+                            ("self.denpoly = Poly(%s)" % d_ if dgiven else "self.denpoly = Poly({0: 1})") in t
+                    scaled = [x for x in t if x.startswith("self.numpoly *= ") or x.startswith("self.denpoly *= ")]
+                    if pw == 0:
+                        ok2 = not scaled
+                    else:
+                        ok2 = sorted(scaled) == ["self.denpoly *= poly_delta", "self.numpoly *= poly_delta"]
+                        pd = [st for st in w.ran if isinstance(st, ast.Assign) and unparse(st.targets[0]) == "poly_delta"]
+                        expo = None
+                        if ok2 and len(pd) == 1:
+                            v_ = pd[0].value
+                            if isinstance(v_, ast.BinOp) and isinstance(v_.op, ast.Pow) and unparse(v_.left) in ("Poly([0, 1])", "Poly({1: 1})"):
+                                expo = v_.right                      # x ** e
+                            elif isinstance(v_, ast.Call) and unparse(v_.func) == "Poly" and len(v_.args) == 1 \
+                                    and isinstance(v_.args[0], ast.Dict) and len(v_.args[0].keys) == 1 \
+                                    and unparse(v_.args[0].values[0]) == "1":
+                                expo = v_.args[0].keys[0]            # the monomial x ** e written as {e: 1}
+                        ok2 = ok2 and expo is not None
+                        if ok2:
+                            try:
+                                ok2 = Evaluator().ev(expo) == -RF.sym("power")
+                            except Inconclusive:
+                                ok2 = False
+                    ends_ok = w.end == "fall" or (w.end == "return" and w.last is not None and w.last.value is None)
+                    chk.decide(ok and ok2 and ends_ok, "C04.normalise", W("LinearFilter.__init__"),
+                               "%s%s, lowest denominator power %d: %s" % (nk, " with denominator" if dgiven else "", pw,
+                                                                         "; ".join(x for x in t if not x.startswith("power"))[:150]),
+                               why="documented constructor: cast or Poly(..) of both parts, then both parts times "
+                                   "x ** -power exactly when power != 0", node=ini)
+        pdef = [st for st in ib if isinstance(st, ast.Assign) and unparse(st.targets[0]) == "power"]
+        chk.decide(len(pdef) == 1 and unparse(pdef[0].value) in ("min((key for key, value in self.denpoly.terms()))",
+                                                                  "min((k for k, v in self.denpoly.terms()))",
+                                                                  "min(self.denpoly._data)", "min(self.denpoly.keys())"),
+                   "C04.normalise", W("LinearFilter.__init__"), short(pdef[0]) if pdef else "power not computed",
+                   why="the shift is by the lowest power of the denominator", node=ini)
+    except AnalysisError as ex:
+        chk.defer(str(ex))
 
     # ------------------------------------------------------- causality guard
     chk.rule("C04.causal-first", "the first statement of __call__ raises ValueError when any key of numpoly.terms() "
@@ -144,6 +237,49 @@ def run(chk, repo):
     # ----------------------------------------------------------------- memory
     chk.rule("C04.memory", "memory None -> lm copies of zero; a non-iterable memory is called with lm; otherwise the "
                            "first lm items are kept in order (takewhile index < lm over enumerate, or islice)")
+    # which preparation for which kind of memory argument (decision table; the arm-by-arm rules below read the contents)
+    from ..dtable import Facts, walk
+    prefix = []
+    for st in body:
+        if isinstance(st, ast.Assign) and unparse(st.targets[0]) == "data_sum":
+            break
+        prefix.append(st)
+    try:
+        for mk in ("None", "callable", "iterable"):
+            F = Facts(kinds={} if mk == "None" else {"memory": {"function"} if mk == "callable" else {"list", "Iterable"}},
+                      none=["memory"] if mk == "None" else [],
+                      truths={"isinstance(self.denpoly[0], Stream)": False, "self.denpoly[0] == 0": False,
+                              "callable(memory)": mk == "callable"}, values={"lm": 2, "actual_len": 2}, types={"Iterable", "Stream"})
+
+            def rbk(name, value, F_, mk=mk):
+                keep_k = F_.kinds.get("memory")
+                F_.forget(name)
+                if name == "memory" and isinstance(value, ast.Call) and unparse(value.func) == "memory":
+                    F_.kinds["memory"] = {"list", "Iterable"}        # what the callable returned
+                elif name == "memory":
+                    F_.kinds["memory"] = {"list", "Iterable"}
+                elif name in ("lm",):
+                    F_.values["lm"] = 2
+            w = walk(prefix, F, "LinearFilter.__call__ memory", rebind=rbk, strict=False)
+            t = w.texts()
+            called = [x for x in t if x.startswith("memory = memory(")]
+            zeros_ = [x for x in t if x in ("memory = [zero for unused in xrange(lm)]", "memory = [zero for unused in range(lm)]",
+                                            "memory = [zero for _ in xrange(lm)]", "memory = [zero for _ in range(lm)]",
+                                            "memory = [zero] * lm", "memory = lm * [zero]")]
+            trunc = [x for x in t if x not in zeros_ and x not in called and "lm" in x
+                     and any(k_ in x for k_ in ("takewhile", "islice", "enumerate", "[:lm]"))]
+            if mk == "None":
+                ok = len(zeros_) == 1 and not called and not trunc
+            elif mk == "callable":
+                ok = called == ["memory = memory(lm)"] and not zeros_ and trunc and t.index(called[0]) < min(t.index(x) for x in trunc)
+            else:
+                ok = not called and not zeros_ and bool(trunc)
+            chk.decide(ok and w.end == "fall", "C04.memory", W("LinearFilter.__call__"),
+                       "memory=<%s>: %s" % (mk, "; ".join(x for x in t if "memory" in x)[:140]),
+                       why="None -> lm zeros; a callable is asked for lm items first; an iterable is truncated to its "
+                           "first lm items", node=call)
+    except AnalysisError as ex:
+        chk.defer(str(ex))
     mem_if = [s for s in body if isinstance(s, ast.If) and unparse(s.test) == "memory is None"]
     chk.require(len(mem_if) == 1, "LinearFilter.__call__: 'if memory is None' block not found")
     mi = mem_if[0]
@@ -237,6 +373,63 @@ def run(chk, repo):
         chk.decide(good, "C04.memory", W("LinearFilter.__call__"),
                    "items kept in order: " + (short(comps[-1]) if comps else "<not found>"),
                    why="memory list must be the data component of the enumerated pairs, in their order", node=mi)
+
+    # a short memory is completed with zeros in front of the given items
+    chk.rule("C04.memory-pad", "a memory with fewer than lm items is preceded by lm - len(memory) copies of the zero "
+                               "value, as list(zero_pad(memory, n, zero=zero)) (left padding, see C08.zero_pad) or "
+                               "[zero] * n + memory (decision table over short / exact lengths)")
+    try:
+        last_trunc = -1
+        for i_, st in enumerate(mi.orelse):
+            tx_ = unparse(st)
+            if any(k_ in tx_ for k_ in ("takewhile", "islice", "enumerate", "[:lm]")) or (
+                    isinstance(st, ast.Assign) and unparse(st.targets[0]) == "memory" and isinstance(st.value, ast.ListComp)):
+                last_trunc = i_
+        chk.require(last_trunc >= 0, "LinearFilter.__call__: truncation of a given memory not found")
+        tail = list(mi.orelse[last_trunc + 1:])
+        for have, lm_ in ((1, 3), (0, 2), (3, 3), (2, 2)):
+            F = Facts(values={"lm": lm_}, lens={"memory": have})
+
+            def rbm(name, value, F_):
+                F_.forget(name)
+            w = walk(tail, F, "LinearFilter.__call__ memory padding", rebind=rbm)
+            pads = [st for st in w.ran if isinstance(st, ast.Assign) and unparse(st.targets[0]) == "memory"
+                    and unparse(st.value) != "memory"]
+            if have < lm_:
+                ok = len(pads) == 1
+                if ok:
+                    v_ = pads[0].value
+                    count = None
+                    calls_ = [n for n in ast.walk(v_) if isinstance(n, ast.Call) and canon_call(mod, n) in ("lazy_misc:zero_pad", "zero_pad")]
+                    if len(calls_) == 1 and len(calls_[0].args) == 2 and unparse(calls_[0].args[0]) == "memory" \
+                            and [(k.arg, unparse(k.value)) for k in calls_[0].keywords] == [("zero", "zero")] \
+                            and isinstance(v_, ast.Call) and unparse(v_.func) == "list" and v_.args[0] is calls_[0]:
+                        count = calls_[0].args[1]            # zero_pad(seq, left, ...): zeros in front of the items
+                    elif isinstance(v_, ast.BinOp) and isinstance(v_.op, ast.Add) and unparse(v_.right) == "memory" \
+                            and isinstance(v_.left, ast.BinOp) and isinstance(v_.left.op, ast.Mult):
+                        a_, b_ = v_.left.left, v_.left.right
+                        if unparse(a_) == "[zero]":
+                            count = b_
+                        elif unparse(b_) == "[zero]":
+                            count = a_
+                    ok = count is not None
+                    if ok:
+                        try:
+                            env_ = {}
+                            for st in w.ran:
+                                if isinstance(st, ast.Assign) and isinstance(st.targets[0], ast.Name) and st is not pads[0] \
+                                        and unparse(st.value) == "len(memory)":
+                                    env_[st.targets[0].id] = RF.sym("len_memory")
+                            ok = Evaluator(env_).ev(count) == RF.sym("lm") - RF.sym("len_memory")
+                        except Inconclusive:
+                            ok = False
+            else:
+                ok = not pads
+            chk.decide(ok, "C04.memory-pad", W("LinearFilter.__call__"),
+                       "%d of %d items given -> %s" % (have, lm_, short(pads[0]) if pads else "kept as it is"),
+                       why="missing items are the zero value: exactly lm - len(memory) zeros in front, nothing when complete", node=mi)
+    except AnalysisError as ex:
+        chk.defer(str(ex))
 
     # ownership of the memory list
     chk.rule("C04.memory-own", "the memory handed to the (lazily started) kernel is a list created inside __call__ on "
